@@ -156,8 +156,12 @@ def run_check(pid, tier, seed):
         found = None
         if hasattr(mod, "search"):
             s2 = Session(pid, seed + 1, "search")
+            # time box: the verdict (a violation is reported either way) must not wait for an open-ended search
+            s2.deadline = time.time() + float(os.environ.get("VERIF_SEARCH_SECONDS", "600" if tier == "thorough" else "150"))
             try:
                 mod.search(s2, dis)
+            except DeadlineReached as e:
+                notes.append(str(e))
             except Exception:
                 notes.append("search error: " + traceback.format_exc()[-500:])
             finally:
@@ -201,7 +205,10 @@ def run_check(pid, tier, seed):
           "assumptions": getattr(mod, "ASSUMPTIONS", []), "wall_s": round(wall, 2), "violations": len(violations)}
     if mod.LEVEL == "other":
         cov["explanation"] = getattr(mod, "EXPLANATION", "")
-    with open(os.path.join(VERIF, "evidence", pid + ".json"), "w") as f:
+    # runs against a deliberately modified /repo (tools/try_mutant.sh, tools/seeded_matrix.sh) keep their evidence apart
+    evdir = os.environ.get("VERIF_EVIDENCE_DIR") or os.path.join(VERIF, "evidence")
+    os.makedirs(evdir, exist_ok=True)
+    with open(os.path.join(evdir, pid + ".json"), "w") as f:
         json.dump(ev, f, indent=1)
     print("%s tier=%s seed=%d theorems=%d/%d cases=%d nontrivial=%d impl_requests=%d model_compared=%d disagreements=%d(+%d non-gating) oracle=%d/%d wall=%.1fs" % (
         pid, tier, seed, discharged, obligations, sess.cases, len(sess.nontrivial), len(sess.records), ncmp, len(dis), len(non),
